@@ -9,8 +9,8 @@ TECH = "bounded model checking of the real Rust code with Kani 0.68 / CBMC 6.11 
 
 CLAIMS = {
  "C01": {
-  "text": "Inductive step lemmas, each decided for ALL inputs within bounds from an ARBITRARY state satisfying the representation invariant I-P (charged total == sum of per-entry charges, charges >= 0): SampledLFU increment/remove/update/clear and the LFUPolicy wrappers preserve I-P and change exactly the addressed entry's charge; room_left(c) >= 0 iff used + c <= max_cost; update_max_cost takes effect for the next computation; one processor New event at cache level preserves I-P. The admission decision itself (LFUPolicy::add: 'every admission re-establishes total <= max_cost', 'oversize never admitted') is NOT decided on the real add (15-30 GB per query, DESIGN 6/C01 Cost); callers are checked against a contract stub that over-approximates it.",
-  "note": "<= 3 residents per map, costs <= 2^40 (no i64 overflow), one step per harness; histories by induction over I-P, schedules only as sequences of lock-protected operations. The real LFUPolicy::add loop is outside the claim.",
+  "text": "Inductive step lemmas, each decided for ALL inputs within bounds from an ARBITRARY state satisfying the representation invariant I-P (charged total == sum of per-entry charges, charges >= 0): SampledLFU increment/remove/update/clear and the LFUPolicy wrappers preserve I-P and change exactly the addressed entry's charge; room_left(c) >= 0 iff used + c <= max_cost; update_max_cost takes effect for the next computation; one processor New event at cache level preserves I-P. The admission clauses are decided on the REAL LFUPolicy::add (c01_add_rule_n2 = c07_add_rule_n2; <= 3 residents and the real estimator in the thorough tier): every admission of a new key re-establishes total <= max_cost, an entry whose own cost exceeds max_cost is never admitted and changes nothing, a resident key's charge is replaced in place.",
+  "note": "<= 3 residents per map, costs <= 2^40 (no i64 overflow), one step per harness; histories by induction over I-P, schedules only as sequences of lock-protected operations. In the add harness popularity is an uninterpreted function per key.",
   "design": "6/C01"},
  "C02": {
   "text": "One store operation (try_insert / try_update / try_remove / get / get_mut+write) from an arbitrary store with <= 2 entries is compared against plain map semantics: the addressed key ends up holding exactly the prescribed (value, conflict, deadline), every other key is untouched, Update hands back the previous value of that same key, a non-vetoed update replaces the value immediately. At cache level the client half of insert (Cache::try_update) replaces the value of a resident key at once and a following get returns it; remove makes the key unretrievable from the moment it returns.",
@@ -21,8 +21,8 @@ CLAIMS = {
   "note": "Virtual clock, non-decreasing readings assumed; store harness with creation instants within 4 s of now and TTLs <= 4 s + arbitrary ns (the kernel harness has no window).",
   "design": "6/C03"},
  "C04": {
-  "text": "Expiry-index invariant I-EM (every entry with a TTL is filed, with its conflict, under the bucket of its deadline; entries without TTL are not filed; a neighbour sharing an expiry second stays filed) is preserved by ShardedMap::try_insert/try_update/try_remove from an arbitrary I-EM state with TTLs switching on and off; together with C05's cleanup lemmas (only due buckets are handed out, only elapsed TTLs are removed) and C06's I-SP this gives 'nothing is swept early'. 'Nothing refused while there is room' is decided on the contract of add only.",
-  "note": "<= 2 entries, 3-slot maps, 4 s window. The below-capacity admission clause depends on LFUPolicy::add (outside, see C01).",
+  "text": "Expiry-index invariant I-EM (every entry with a TTL is filed, with its conflict, under the bucket of its deadline; entries without TTL are not filed; a neighbour sharing an expiry second stays filed) is preserved by ShardedMap::try_insert/try_update/try_remove from an arbitrary I-EM state with TTLs switching on and off; together with C05's cleanup lemmas (only due buckets are handed out, only elapsed TTLs are removed) and C06's I-SP this gives 'nothing is swept early'. 'Nothing refused or evicted while there is room' is decided on the real LFUPolicy::add (c04_room_admits).",
+  "note": "<= 2 entries, 3-slot maps, 4 s window. The add harness uses an uninterpreted popularity function.",
   "design": "6/C04"},
  "C05": {
   "text": "Bucket arithmetic at full width: an entry is filed under floor(deadline)+1; a pass at t may sweep buckets <= floor(t); every bucket that is due only holds elapsed TTLs; one bucket width after the deadline the bucket is due. ExpirationMap step lemmas (insert/update/remove keep neighbours filed; update un-files only the key); try_cleanup hands out every due bucket however late the pass is, and nothing that is not due. One cleanup tick at cache level removes only elapsed entries and all entries overdue by >= 1 s, each through on_evict exactly once with its charged cost.",
@@ -32,6 +32,10 @@ CLAIMS = {
   "text": "I-SP (resident <=> charged, len() == number of charged entries) is preserved by each processor event (New / Update / Delete / cleanup tick) and by client remove + its Delete, from an arbitrary quiescent I-SP state, for every admission/eviction decision of the policy (contract stub).",
   "note": "Histories by induction; schedules only as sequences of whole events (DESIGN 5); the clear()-inside-handle_item race (D6) is documented, its harness is thorough-tier. <= 2 residents (1 for New in the quick tier), TransparentKeyBuilder (conflict 0).",
   "design": "6/C06"},
+ "C07": {
+  "text": "The REAL LFUPolicy::add (admission / eviction loop, fill_sample, room arithmetic) executed from an arbitrary I-P state with <= 2 residents (quick; <= 3 thorough) in arbitrary map slots, arbitrary charges, arbitrary max_cost including over-budget pre-states, arbitrary popularity per key, arbitrary incoming (key, cost): with room the newcomer is always admitted and nothing evicted; without room every resident that lost its charge was no more popular than the newcomer and no more popular than any survivor (least popular of the sampled candidates), is reported as a victim with its charge, evictions free enough room when the newcomer is admitted, and the newcomer is rejected exactly when strictly less popular than the least popular remaining candidate; oversize and resident keys handled as specified.",
+  "note": "Popularity is an uninterpreted function per key (the estimator is C13's subject; add does not modify it). Fewer than five residents: 'all if fewer' is the decided half of the sampling clause; WHICH five are sampled among more needs >= 6 residents and is outside the 3-slot map model. std HashMap -> kmap, Vec -> kvec models.",
+  "design": "6/C07, 11.5"},
  "C08": {
   "text": "Ghost accounting with a recording callback: after each processor event or client call every value tag is in exactly one place - resident, or handed to exactly one of on_exit / on_evict / on_reject exactly once; replaced and removed values go to on_exit, evicted/expired to on_evict, refused to on_reject; processing a Delete after a client remove fires no second callback.",
   "note": "Step lemmas from arbitrary quiescent states with <= 2 residents; clear() drops residents without callback (the stated exception). Races between clients are covered only as sequences.",
@@ -72,6 +76,10 @@ CLAIMS = {
   "text": "TransparentKeyBuilder for bool and all ten integer types at full width: index == key as u64 == to_u64, conflict 0, deterministic, injective. Collision isolation at store level (conflict mismatch => NotExist/Conflict/None and the resident entry untouched: c02_store_*) and at cache level with a key builder that forces two keys onto one index: lookups, insert and remove of the second key never read, overwrite or remove the first key's value; the colliding value is refused through on_reject.",
   "note": "DefaultKeyBuilder String/&str equality (SeaHash + xxh64 over symbolic bytes) exceeds 12 GB even for 4 bytes: outside (String::hash delegates to str::hash by construction).",
   "design": "6/C18"},
+ "C19": {
+  "text": "PARTLY decided: the processor side of the async flavour - cache::async::CacheProcessor::handle_insert_event (Update / Delete arms and the New arm's wiring for every outcome of the policy and the store) and handle_cleanup_event -> ShardedMap::try_cleanup_async - satisfy, from the same kind of arbitrary state, the same assertions as the sync flavour (charges, callbacks, resident <=> charged, only elapsed entries reclaimed and overdue ones always).",
+  "note": "NOT decided: AsyncCache's client methods (insert/remove/wait/clear/close), the two background task loops, executors/spawners, wakers, polling order, futures::select!, async_io::Timer: Kani cannot execute them. 'Same observable results for the same operation sequence' is therefore only decided as 'both processors satisfy the same step lemmas'.",
+  "design": "6/C19, 8"},
  "C20": {
   "text": "Panic-freedom is an implicit assertion of every harness (Kani checks every reachable panic, overflow, bounds). Specifically: CacheBuilder::finalize returns InvalidNumCounters / InvalidMaxCost / InvalidBufferSize exactly for a zero parameter; CountMinSketch::new works for every num_counters in [1, 65536]; RingStripe for buffer_items 0..3; a closed cache is inert.",
   "note": "What finalize does after validation (thread spawning, Bloom::new float sizing) and worker liveness are outside; max_cost negative/1 only through the arbitrary max_cost in [-2^40, 2^40] of the policy harnesses.",
@@ -79,8 +87,7 @@ CLAIMS = {
 }
 
 NOT_APPLICABLE = {
- "C07": "the rule is entirely inside LFUPolicy::add's admission/eviction loop; with the real TinyLFU and a 3-slot map model every configuration tried needs 15-30 GB or does not finish (DESIGN.md 6/C01 Cost); there is no cheaper lemma to fall back on, so it is not claimed rather than replaced by another technique",
- "C19": "AsyncCache's client methods, task loops and executor/polling order cannot be executed by Kani (futures select!, async-channel, async-io Timer); the processor/cleanup code it shares with Cache through macros is decided for the sync instantiation only in this tree",
+
  "C12": "close() finality/idempotence/worker termination is entirely about blocking rendezvous sends between OS threads and thread exit; Kani cannot execute crossbeam-channel, parking or std::thread (compile-time ICE on TLS destructors), and no stretto logic can be separated from them (DESIGN.md 6/C12, 8)",
 }
 
